@@ -37,7 +37,7 @@ func (ty c18Type) str(t *rapid.T) string {
 	if ty.signed {
 		l = "i"
 	}
-	if rapid.IntRange(0, 15).Draw(t, "uctype") == 0 {
+	if rapid.IntRange(0, 47).Draw(t, "uctype") == 29 {
 		l = strings.ToUpper(l)
 	}
 	return l + strconv.Itoa(ty.w)
@@ -196,7 +196,7 @@ func c18Bitfield(t *rapid.T, db *model.DB, key string) []string {
 		}
 		switch weighted(t, "subop", []int{3, 4, 5}) {
 		case 0:
-			if rapid.IntRange(0, 7).Draw(t, "owget") == 0 {
+			if rapid.IntRange(0, 59).Draw(t, "owget") == 31 {
 				a = append(a, c18Overflow(t)...) // OVERFLOW in front of a GET only matters for the writes after it
 			}
 			a = append(a, randCase(t, "GET"), tys, offs)
@@ -217,7 +217,7 @@ func c18Bitfield(t *rapid.T, db *model.DB, key string) []string {
 		}
 		lastOff, lastTy = offs, tys
 	}
-	if rapid.IntRange(0, 15).Draw(t, "owtail") == 0 {
+	if rapid.IntRange(0, 59).Draw(t, "owtail") == 37 {
 		a = append(a, c18Overflow(t)...) // trailing OVERFLOW: valid, no effect
 	}
 	return a
@@ -246,7 +246,7 @@ func c18BitfieldRO(t *rapid.T, db *model.DB, key string) []string {
 		offs, _, _ := c18Offset(t, db, key, m, ty)
 		a = append(a, randCase(t, "GET"), ty.str(t), offs)
 	}
-	if rapid.IntRange(0, 9).Draw(t, "rowrite") == 0 {
+	if rapid.IntRange(0, 9).Draw(t, "rowrite") == 5 {
 		a = append(a, pick(t, "rowr", "SET", "INCRBY"), "u4", "0", "1")
 	}
 	return a
@@ -332,14 +332,22 @@ func c18Step(t *rapid.T, db *model.DB) []string {
 		return []string{cn("GETBIT"), k, off}
 	case 5: // BITCOUNT
 		a := append([]string{cn("BITCOUNT"), k}, c18RangeArgs(t, L, true)...)
-		if rapid.IntRange(0, 19).Draw(t, "badunit") == 0 {
+		if rapid.IntRange(0, 19).Draw(t, "badunit") == 11 {
 			a = append(a[:2], "0", "-1", pick(t, "unit", "BITS", "", "x"))
 		}
 		return a
 	case 6: // BITPOS
+		if o := db.Keys[k]; o != nil && o.T == model.TString && L > 0 && strings.Count(o.Str, "\xff") == L && rapid.Bool().Draw(t, "pastend") {
+			// all ones: looking for a 0 without an explicit end finds the first bit past the end
+			a := []string{cn("BITPOS"), k, "0"}
+			if rapid.Bool().Draw(t, "withstart") {
+				a = append(a, strconv.Itoa(rapid.IntRange(-L-1, L+1).Draw(t, "start")))
+			}
+			return a
+		}
 		a := []string{cn("BITPOS"), k, pick(t, "pbit", "0", "1", "0", "1", "0", "1", "0", "1", "0", "1", "2", "-1", "x")}
 		a = append(a, c18RangeArgs(t, L, false)...)
-		if rapid.IntRange(0, 19).Draw(t, "badunit") == 0 {
+		if rapid.IntRange(0, 19).Draw(t, "badunit") == 11 {
 			a = append(a[:3], "0", "-1", pick(t, "unit", "BITS", "", "x"))
 		}
 		return a
@@ -489,19 +497,13 @@ func c18Exclude(argv []string, db *model.DB) string {
 			}
 		}
 	case "BITOP":
-		// TEMP-EXCLUDE: D5 BITOP whose result is empty (all operands missing or empty) stores an empty string in
-		// dest instead of deleting dest (dataStoreCommands.go changeBits / invertBits)
-		if len(argv) >= 4 {
-			empty := true
-			for _, k := range argv[3:] {
-				if o := db.Keys[k]; o != nil && (o.T != model.TString || o.Str != "") {
-					empty = false
-				}
-			}
-			if empty {
-				return "C18-D5-bitop-empty-result-creates-key"
-			}
+		// TEMP-EXCLUDE: D15 BITOP <op> dest without any source key is executed (replies 0 and writes dest) instead of being
+		// rejected for its arity (redisBits.go fnBitOp: the first of the "key" arguments is dest, the rest may be empty)
+		if len(argv) == 3 {
+			return "C18-D15-bitop-without-source"
 		}
+		// (D5 "BITOP with an empty result stores an empty string instead of deleting dest" was excluded here until /repo
+		// commit 190ce9e fixed it; the exclusion is gone and the case is searched again)
 	case "BITFIELD", "BITFIELD_RO":
 		for _, s := range c18ParseSubs(argv) {
 			// TEMP-EXCLUDE: D1 BITFIELD type letter in upper case (I8/U8) is rejected (redisBits.go parseBitfieldEncodingType)
